@@ -616,6 +616,86 @@ def r03_1_apply_protocol(ctx: Ctx) -> None:
             run.fail("R03.1", inst, problem, fi=f, node=p.node or f.node, details=describe(p))
         else:
             run.ok("R03.1", inst, {"path": p.describe()})
+    # ---- the same protocol as a truth table: for every combination of (other engine, backtrack, inserted, transfer,
+    # required) exactly one path is taken, and what it does is what the documentation says
+    import itertools
+
+    class _Unknown(Exception):
+        pass
+
+    def _ev(e: ast.expr, asg: dict, done_now) -> bool:
+        if isinstance(e, ast.UnaryOp) and isinstance(e.op, ast.Not):
+            return not _ev(e.operand, asg, done_now)
+        if isinstance(e, ast.BoolOp):
+            vals = [_ev(x, asg, done_now) for x in e.values]
+            return all(vals) if isinstance(e.op, ast.And) else any(vals)
+        if isinstance(e, ast.Name):
+            if e.id in ("backtrack", "transfer", "require_preferred_engine"):
+                return asg[e.id]
+            if e.id == done_v:
+                if done_now is None:
+                    raise _Unknown()
+                return done_now
+        if isinstance(e, ast.Compare) and len(e.ops) == 1 and isinstance(e.ops[0], (ast.Eq, ast.NotEq)):
+            if {src(e.left), src(e.comparators[0])} == {"preferred_engine", f"{tgt}.engine"}:
+                return asg["other"] == isinstance(e.ops[0], ast.NotEq)
+        raise _Unknown()
+
+    all_paths = list(ctx.paths(f))
+    decided = True
+    for other, bt, ins, tr, rq in itertools.product((False, True), repeat=5):
+        asg = {"other": other, "backtrack": bt, "transfer": tr, "require_preferred_engine": rq}
+        taken = []
+        try:
+            for p in all_paths:
+                done_now = None
+                ok_p = True
+                for s in p.steps:
+                    if s.kind == "stmt" and isinstance(s.node, ast.Assign):
+                        tg = s.node.targets[0]
+                        if isinstance(tg, ast.Name) and tg.id == done_v and isinstance(s.node.value, ast.Constant):
+                            done_now = bool(s.node.value.value)
+                        elif isinstance(tg, ast.Tuple) and isinstance(s.node.value, ast.Call) and call_attr(s.node.value) == "backtrack_unary" and any(src(x) == done_v for x in tg.elts):
+                            done_now = ins
+                        elif isinstance(tg, ast.Name) and tg.id == done_v:
+                            raise _Unknown()
+                    if s.kind == "cond":
+                        if _ev(s.node, asg, done_now) != s.value:
+                            ok_p = False
+                            break
+                    elif s.kind != "stmt":
+                        raise _Unknown()
+                if ok_p:
+                    taken.append(p)
+        except _Unknown:
+            decided = False
+            break
+        if len(taken) != 1:
+            decided = False
+            break
+        p = taken[0]
+        calls = list(path_calls(p))
+        did_back = any(call_attr(c) == "backtrack_unary" for _, c in calls)
+        did_transfer = any(call_attr(c) in ("transferred_to", "transfer") for _, c in calls)
+        did_append = any(call_attr(c) == "append_unary" for _, c in calls)
+        raised = p.outcome == "raise"
+        want_back = other and bt
+        inserted = ins if want_back else False
+        want_transfer = other and not inserted and tr
+        want_raise = other and not inserted and not tr and rq
+        want_append = not want_raise and not inserted
+        label = f"other-engine={other}, backtrack={bt}, inserted-by-backtracking={ins if want_back else 'n/a'}, transfer={tr}, require_preferred_engine={rq}"
+        inst = f"apply:table:{int(other)}{int(bt)}{int(ins)}{int(tr)}{int(rq)}"
+        got = (did_back, did_transfer, raised, did_append)
+        want = (want_back, want_transfer, want_raise, want_append)
+        if got == want:
+            run.ok("R03.1", inst)
+        else:
+            names = ("backtrack_unary called", "transfer inserted", "EngineError raised", "append_unary called")
+            diff = "; ".join(f"{nm}: {g} (documented: {w})" for nm, g, w in zip(names, got, want) if g != w)
+            run.fail("R03.1", inst, f"apply() with {label}: {diff}", fi=f, node=p.node or f.node, details=describe(p))
+    if not decided:
+        run.note("UnaryOperation.apply's option protocol could not be evaluated as a truth table (a condition outside the five options); the per-path checks stand")
 
 
 def r03_2_backtrack_contract(ctx: Ctx) -> None:
@@ -918,3 +998,68 @@ def r04_4_set_formulas(ctx: Ctx, rule: str = "R04.4") -> None:
             run.ok(rule, inst, {"undecided": got is None})
         else:
             run.fail(rule, inst, "Join.applied_columns is not the union of both operands' columns", fi=jn, node=p.node)
+
+
+def r03_5_partial_join_engine(ctx: Ctx, rule: str = "R03.5") -> None:
+    """A join to a fixed relation is to be evaluated where the fixed relation lives unless the caller says otherwise."""
+    run, m = ctx.run, ctx.m
+    run.rule(
+        rule,
+        "PartialJoin._begin_apply hands the base implementation a preferred engine on every path: the caller's, or - when "
+        "the caller gave None - the engine of the fixed operand (whether or not the common columns still had to be "
+        "resolved): without it a join whose target lives elsewhere is neither backtracked nor transferred and fails "
+        "with 'mismatched engines' although it is valid",
+        expected_min=1,
+    )
+    f = ctx.op_class("PartialJoin").methods.get("_begin_apply")
+    if f is None:
+        raise AnalysisError("PartialJoin._begin_apply is missing")
+    ps = [p for p in f.params if p != "self"]
+    pe = ps[1]
+    n = 0
+    for i, p in enumerate(ctx.paths(f)):
+        if p.outcome != "return":
+            continue
+        v = p.value
+        if not (isinstance(v, ast.Call) and call_attr(v) == "_begin_apply"):
+            continue
+        recv = v.func.value if isinstance(v.func, ast.Attribute) else None
+        if not (isinstance(recv, ast.Call) and isinstance(recv.func, ast.Name) and recv.func.id == "super"):
+            n += 1
+            # delegation to the replacement operation: it must pass the caller's preference on
+            a = v.args[1] if len(v.args) > 1 else kw(v, pe)
+            if a is not None and src(a) == pe and pe not in {nm for s in p.steps for nm in _rebinds(s)}:
+                run.ok(rule, f"path{i}:delegates")
+            else:
+                ab = env_at(p).get(a.id) if isinstance(a, ast.Name) else a
+                if isinstance(ab, ast.AST) and src(ab) in (pe, "self.fixed.engine"):
+                    run.ok(rule, f"path{i}:delegates")
+                else:
+                    run.fail(rule, f"path{i}:delegates", f"the re-resolved join is applied with preferred engine `{src(a) if a is not None else '?'}` instead of the caller's", fi=f, node=p.node, details=describe(p))
+            continue
+        n += 1
+        a = v.args[1] if len(v.args) > 1 else kw(v, pe)
+        inst = f"path{i}:base-call"
+        facts = path_facts(p)
+        given = has_fact(facts, "IS", tuple(sorted(("None", pe))), False)
+        b = env_at(p).get(a.id) if isinstance(a, ast.Name) else a
+        defaulted = isinstance(b, ast.AST) and src(b) == "self.fixed.engine"
+        if a is not None and ((src(a) == pe and given and not isinstance(b, ast.AST)) or defaulted or (src(a) == pe and given)):
+            run.ok(rule, inst)
+        else:
+            run.fail(
+                rule,
+                inst,
+                f"the base _begin_apply is reached with `{src(a) if a is not None else '?'}` on a path where the caller's preferred engine may be None and was not replaced by `self.fixed.engine`",
+                fi=f,
+                node=p.node,
+                details=describe(p),
+            )
+    if n == 0:
+        raise AnalysisError("PartialJoin._begin_apply no longer delegates to a _begin_apply")
+
+
+def _rebinds(step) -> set[str]:
+    from ..paths import _binds
+
+    return _binds(step)
